@@ -1,6 +1,8 @@
 """C06 — crossover recombines parental material; point mutation is local."""
 from __future__ import annotations
 
+import json
+
 from harness import core, flow
 from harness.props import rep_common as rc
 
@@ -28,6 +30,10 @@ def rep_phase(chk, prop, run_fn, regions, cases, component="representation opera
         chk.violation("correspondence", "the representations could not be driven (they no longer check): " + res["stderr"][-600:], {"component": "representations", "stderr": res["stderr"]}, False)
         return None
     ecs, eos = rc.expand(cases, res)
+    run_ = [i for i, o in enumerate(eos) if '"exc": "NotRun"' not in json.dumps(o, default=str)]
+    if len(run_) != len(eos):      # operations the driver did not run (it gives up on a batch after five calls that did not return)
+        chk.not_run = getattr(chk, "not_run", 0) + len(eos) - len(run_)
+        ecs, eos = [ecs[i] for i in run_], [eos[i] for i in run_]
     terms = [rc.to_coq(c, o) for c, o in zip(ecs, eos)]
     known = {k["id"]: k for k in core.known_findings(prop)}
     lists = core.run_cases(prop, rc.IMPORTS, terms, run_fn=run_fn, chunk=80, nlists=2 + len(regions))
